@@ -917,6 +917,53 @@ func genTable(cfg Config, emit0 func(string, bool, []string)) {
 				g.add("list %s m lpm x0a00/8", h)
 				g.add("prefix %s m lpm x0000/0", h)
 			}
+			// the object with the LARGEST primary key leaves the bucket (delete, or a key-changing update),
+			// then one with a still larger primary key enters it — in one transaction or in two, committed
+			// or aborted — while older snapshots keep listing the bucket
+			for round := 0; round < 2; round++ {
+				g.add("rtxn")
+				g.nsnap++
+				h := fmt.Sprintf("s%d", g.nsnap-1)
+				g.add("list %s m lpm x0a00/8", h)
+				last := []string{"l4", "l8"}[round]
+				next := []string{"l8", "l9"}[round]
+				g.add("wtxn m")
+				if r.IntN(3) == 0 {
+					g.add("ins m %s %d 0 - x0b00/8 0 %d", hx([]byte(last)), 60+round, ord) // moves to another bucket
+					ord++
+				} else {
+					g.add("del m %s", hx([]byte(last)))
+				}
+				g.add("list %s m lpm x0a00/8", h)
+				two := r.IntN(2) == 0
+				if two {
+					g.add("commit")
+					g.nsnap++
+					g.add("rtxn")
+					g.nsnap++
+					g.add("list s%d m lpm x0a00/8", g.nsnap-1)
+					g.add("wtxn m")
+				}
+				g.add("ins m %s %d 0 - x0a00/8 0 %d", hx([]byte(next)), 62+round, ord)
+				ord++
+				g.add("list %s m lpm x0a00/8", h)
+				g.add("prefix %s m lpm x0000/0", h)
+				g.add("lb %s m lpm x0a00/8", h)
+				if two {
+					g.add("list s%d m lpm x0a00/8", g.nsnap-1)
+				}
+				if r.IntN(3) == 0 && !(round == 0) {
+					g.add("abort")
+				} else {
+					g.add("commit")
+					g.nsnap++
+				}
+				g.add("list %s m lpm x0a00/8", h)
+				g.add("list - m lpm x0a00/8")
+				if two {
+					g.add("list s%d m lpm x0a00/8", g.nsnap-2)
+				}
+			}
 			// the LAST child (branch byte 0xff) of a small index node removed, in the primary index and
 			// in the tag index, then looked up again through every query kind
 			g.add("wtxn m")
